@@ -198,12 +198,17 @@ class Deliver(Part):
     branch_names = {1: "several_senders", 2: "crosses_batch_bound_4096", 3: "over_300_consecutive_batches",
                     4: "restarts_with_senders_active", 5: "sends_while_Started_is_running", 6: "children_listed_while_they_stop",
                     7: "stop_request_racing_restarts_and_senders"}
+    # (branch 6 is also reached by the child-busy runs: they have no senders either)
     restart_only = False
     spawnrace_only = False
     childrenrace_only = False
     stoprace_only = False
+    childbusy_only = False
 
     def generate(self, rng, tier):
+        if self.childbusy_only:
+            holds = [2300] if tier == "quick" else [300, 2300, 5600]
+            return [{"input": dict(mode="childbusy", senders=0, per_sender=0, handler_micros=h * 1000), "class": "childbusy"} for h in holds]
         if self.stoprace_only:
             cs = []
             for k in range(4 if tier == "quick" else 24):
@@ -282,6 +287,13 @@ class DeliverSpawnRace(Deliver):
     """sends racing the Started handler of a freshly registered actor"""
     name = "engine_spawn_race"
     spawnrace_only = True
+    parallel = True
+
+
+class DeliverChildBusy(Deliver):
+    """a parent poisoned while its child is inside a handler for seconds: the child's Stopped must wait for the handler"""
+    name = "engine_child_busy"
+    childbusy_only = True
     parallel = True
 
 
